@@ -100,7 +100,7 @@ theorem an_signBitMask (w : Nat) : AllNodes P (Tools.signBitMask w) := by
   · trivial
   · exact an_bin _ w an_one (an_constUint _ 2)
 theorem an_bitMask (bits w : Nat) : AllNodes P (Tools.bitMask bits w) := by
-  unfold Tools.bitMask
+  unfold Tools.bitMask Tools.bitMaskRaw
   split
   · trivial
   · exact an_sub w (an_bin _ w an_one (an_constUint _ 2)) an_one
